@@ -41,7 +41,7 @@ pub fn describe_bounds(tier: Tier) -> String {
     format!(
         "link sweep: entries {{eth2, sll, ether-type}} x all sequences of <= {} link extensions over {} variants x 12 net/transport suffixes (4 with deviations; in the quick tier additionally every sequence of 4 extensions - one more than the crate decodes - x 4 suffixes without deviations), <= {} deviation(s) in different layers of the link part (prefixes with more than {} extensions: one less) + all pairs of deviations inside one layer; \
          net sweep: 6 link prefixes x {{ipv4, ipv4+ah, ipv6 + every extension chain of length <= {} ({} with deviations) over {{hbh,dest,routing,frag,ah}}}} x {} transports, <= {} deviation(s) in different layers of the net/transport part (chains longer than {}: one less) + all in-layer pairs; \
-         cross sweep: <= {} deviations anywhere over 30 reduced stackings; noise sweep: all literals of length <= {} over {{00,01,45,60,7f,80,ff}} + 0..64 filler bytes for every door; option sweep: all sequences of <= {} TCP option tokens (24 tokens: well formed, lying length bytes, unknown kinds) and <= {} NDP option tokens (40 tokens) cut at every byte, as raw option area and inside a TCP segment / neighbour solicitation; \
+         cross sweep: <= {} deviations anywhere over 30 reduced stackings; noise sweep: all literals of length <= {} over {{00,01,45,60,7f,80,ff}} + 0..64 filler bytes for every door; option sweep: all sequences of <= {} TCP option tokens (24 tokens: well formed, lying length bytes, unknown kinds) and <= {} NDP option tokens (56 tokens, incl. single options of 33 and 255 length units) cut at every byte, as raw option area and inside a TCP segment / neighbour solicitation; \
          bit sweep: {} well-formed packets (the cross stackings, SLL / ether-type / IP doors, all IPv6 extension kinds, IPv4 / TCP options, ICMP variants) with every single bit flipped, every byte inverted and every byte zeroed; every packet is closed by trailers {{0,1,5}} behind the innermost length field and by EVERY truncation point (layers > 192 B: boundaries and every 64th byte); every suffix starting at a layer boundary is also a case under the door its parent announces",
         b.link_exts,
         link_ext_alphabet(b.level).len(),
@@ -198,7 +198,8 @@ pub fn tcp_opt_tokens() -> Vec<Vec<u8>> {
 pub fn ndp_opt_tokens() -> Vec<Vec<u8>> {
     let mut v = vec![];
     for t in [0u8, 1, 2, 3, 4, 5, 6, 255] {
-        for units in [0u8, 1, 2, 4, 5] {
+        // 33 and 255 units: lengths whose byte count does not fit 8 bits (only as single options: the sequences are capped at 120 bytes)
+        for units in [0u8, 1, 2, 4, 5, 33, 255] {
             let body = if units == 0 { 6 } else { units as usize * 8 - 2 };
             let mut o = vec![t, units];
             o.extend((0..body).map(|i| 0x40u8.wrapping_add(i as u8)));
